@@ -78,6 +78,18 @@ def h_step(w):
     w.witness()
     coherent(w, mr, t, 'pre-state')
     res = []
+    # histories with more than one object: the receiver may itself be a copy (constructor or copy()) of another
+    # transform, and other transforms may have been copied from it; none of them may be affected by the operation
+    via = w.params.get('via_copy')
+    origin = None
+    if via == 'ctor':
+        origin, t = t, tm(t)
+    elif via == 'copy':
+        origin, t = t, t.copy()
+    bystanders = [('constructor copy', tm(t)), ('copy()', t.copy())]
+    if origin is not None:
+        bystanders.append(('source of the receiver', origin))
+    snapshots = [(b.gTM(), b.gTAA()) for _, b in bystanders]
     if op == 'sTM':
         T, R, pp, q = _valid_T(w, 'M')
         t.sTM(T.copy())
@@ -148,6 +160,10 @@ def h_step(w):
     else:
         raise AssertionError(op)
     coherent(w, mr, t, 'receiver after ' + op)
+    for (bname, b), (tm0, taa0) in zip(bystanders, snapshots):
+        w.prove_close(b.gTM(), tm0, 0, '%s: matrix untouched by %s on the other object' % (bname, op))
+        w.prove_close(b.gTAA(), taa0, 0, '%s: six-vector untouched by %s on the other object' % (bname, op))
+        w.prove_close(b.TM, tm0, 0, '%s: stored matrix untouched by %s' % (bname, op))
     for name, r in res:
         w.prove(isinstance(r, tm), name + ' returns a transform')
         if isinstance(r, tm):
@@ -217,6 +233,12 @@ def cases(tier, seed):
             cs.append(Case('step_%s_col' % op, h_step, params=dict(op=op, flat=False)))
         else:
             cs.append(Case('step_' + op, h_step, params=dict(op=op)))
+    for op in ('sTM', 'sTAA_col', 'setQuat', 'angleMod', 'setitem_slice_rot'):
+        for via in ('ctor', 'copy'):
+            cs.append(Case('step_%s_on_%s_copy' % (op, via), h_step, params=dict(op=op, via_copy=via)))
+    for via in ('ctor', 'copy'):
+        cs.append(Case('step_set_4_on_%s_copy' % via, h_step, params=dict(op='set', index=4, via_copy=via)))
+        cs.append(Case('step_setitem_1_on_%s_copy' % via, h_step, params=dict(op='setitem', index=1, via_copy=via)))
     if tier == 'thorough':
         for op in ('sTM', 'setQuat', 'inv', 'matmul_array'):
             cs.append(Case('step_%s_real_log' % op, h_step, params=dict(op=op, summary=False)))
